@@ -41,7 +41,10 @@ def gen_shape(rng):
             docgen.rpath_d(rng), docgen.rpath_d(rng, closed=False), "M10,10", "M10,10 M20,20", "M10,10 L20,20", "M5,5 L50,5 L90,5 Z",
             "M1,1 z", "", "M10,10 L20,10 L20,20 L10,20 Z M10,10 L20,10 L20,20 L10,20 Z", "M10,10 L20,10 L20,20 L10,20 Z M10,10 L10,20 L20,20 L20,10 Z",
             "M10,10 h0.0001 v30 h-0.0001 z", "M0,0 L10,0 M0,0 L10,10 L0,10 Z", "M10,10 L30,10 L30,30 L10,30 Z M15,15 L25,15 L25,25 L15,25 Z",
-            "m5,5 0,0 0,0", "M10,10 Q20,20 30,10", "M10,10 C10,10 10,10 10,10 Z", "M3,3 L3,3 Z L5,5 L5,0 Z"])
+            "m5,5 0,0 0,0", "M10,10 Q20,20 30,10",
+            # equal-area contours drawn in opposite directions (a colon, a bowtie): the signed areas cancel
+            "M10,10 L20,10 L20,20 L10,20 Z M30,10 L30,20 L40,20 L40,10 Z", "M10,10 L30,30 L30,10 L10,30 Z",
+            "M5,5 h10 v10 h-10 z M25,5 v10 h10 v-10 z M45,5 h10 v10 h-10 z", "M10,10 L20,10 L20,20 L10,20 Z M12,30 L12,40 L22,40 L22,30 Z", "M10,10 C10,10 10,10 10,10 Z", "M3,3 L3,3 Z L5,5 L5,0 Z"])
     elif tag == "rect":
         at.update(x=docgen.num(rng, 0, 50), y=docgen.num(rng, 0, 50), width=rng.choice(["0", "10", "0.00001", docgen.num(rng, 1, 40)]), height=rng.choice(["0", "10", docgen.num(rng, 1, 40)]))
     elif tag == "circle":
@@ -67,8 +70,8 @@ def gen_shape(rng):
         paint.append(("stroke-opacity", rng.choice(["0", "0.5", "1"])))
     if rng.random() < 0.2:
         paint.append(("display", rng.choice(["none", "inline", "block"])))
-    if rng.random() < 0.25:
-        paint.append(("fill-rule", rng.choice(["evenodd", "nonzero"])))
+    if rng.random() < 0.4:
+        paint.append(("fill-rule", rng.choice(["evenodd", "evenodd", "nonzero"])))
     styled = []
     for k, v in paint:
         if rng.random() < 0.4:
